@@ -96,6 +96,7 @@ typedef struct {
     volatile uint64_t scale_inv_trunc_differs;      /* observation: fixed_inverse truncates where nearest differs */
     volatile uint64_t fromf_band_false;             /* observation: FALSE for |d| in (32767, 32768) although representable */
     volatile uint64_t f_demanded, f_exact;
+    volatile int sample_cnt[10];                    /* at most 2 evidence samples per kind of space */
 } c11_stats_t;
 static c11_stats_t *c11_st;
 
@@ -120,6 +121,11 @@ static void c11_blk_end(void)
     if (pick < 0 && c11_nblk) pick = 0;
     if (pick >= 0) vf_violation(c11_blk[pick].key, "%s  [%llu input(s) of this block fail with this key]", c11_blk[pick].text,
                                 (unsigned long long)c11_blk[pick].count);
+}
+static int c11_want_sample(int kind)
+{
+    if (vf_in_confirm || !vf_want_sample() || c11_st->sample_cnt[kind] >= 2) return 0;
+    return __atomic_fetch_add(&c11_st->sample_cnt[kind], 1, __ATOMIC_RELAXED) < 2;
 }
 #define ST_ADD(field, n) do { if (!vf_in_confirm && (n)) __atomic_add_fetch(&c11_st->field, (uint64_t)(n), __ATOMIC_RELAXED); } while (0)
 
